@@ -194,3 +194,10 @@ def r6(c):
         ok = len(snd) == 1 and q.is_name(b, snd[0].args[1], 'command') and not b.in_cycle(snd[0].node)
         other = [cs for cs in b.calls() if not q.is_machinery(cs) and cs is not snd[0] and effects.get(P).of_call(cs)]
         c.ob('%s' % '::'.join(f.split('::')[-2:]), ok and not other, 'the command is handed to the queue exactly once and kept nowhere else (if the queue refuses it, it is dropped and the Drop backstop completes it)', '', loc_of(b))
+
+
+@rule('C10', 'R10.7', 'no request is left pending: the response deadline is fixed once per transaction and every wait for a reply races it (C12/R12.1, R12.2)')
+def r7(c):
+    from rules import c12
+    c12.r1(c)
+    c12.r2(c)
